@@ -854,10 +854,8 @@ func convGuards(c *an.Ctx, rule string, only []string) {
 							}
 						}
 					}
-					// []byte-kind → string is always convertible
-					if v && strings.Contains(pk, "reflect.Uint8 == ") && strings.Contains(pk, ".Elem().Kind()") {
-						g = true
-					}
+					// (a test of the element *kind* is no guard: a slice of a named byte type has the kind and is not
+					// convertible to string)
 				}
 				if !g {
 					guarded = false
